@@ -64,7 +64,11 @@ def key_st(draw, n):
         return ["slice", e(), e(), draw(st.sampled_from([None, 1, 2, -1, -2]))]
     k = draw(st.integers(0, 4))
     inr = st.integers(-n, n - 1) if n else st.integers(0, 0)
-    return [kind, [draw(st.one_of(inr, inr, inr, inr, st.integers(-n - 1, n))) for _ in range(k)]]
+    vals = [draw(st.one_of(inr, inr, inr, inr, st.integers(-n - 1, n))) for _ in range(k)]
+    if kind == "imat" and draw(st.booleans()):
+        shapes = [(1, k)] + [(r, k // r) for r in (2, 3) if k % r == 0]
+        return [kind, vals, list(draw(st.sampled_from(shapes)))]
+    return [kind, vals]
 
 
 def key_obj(key):
@@ -75,7 +79,8 @@ def key_obj(key):
         return slice(key[1], key[2], key[3])
     if k == "list":
         return list(key[1])
-    return matrix(list(key[1]), (len(key[1]), 1), "i")
+    # "the size of the index matrix is ignored" (matrices.rst): rows, columns and rectangles of indices
+    return matrix(list(key[1]), tuple(key[2]) if len(key) > 2 else (len(key[1]), 1), "i")
 
 
 def key_has_dups(key, n):
@@ -279,6 +284,12 @@ def case_strategy(draw):
                  partial=draw(st.booleans()), seed=draw(st.integers(0, 10 ** 6)), uplo=draw(st.sampled_from("LU")))
         if f in ("gemv", "symv") and draw(st.booleans()):
             c.update(incx=draw(st.sampled_from([1, 2, -1, -2])), incy=draw(st.sampled_from([1, 2, -1, -2, -1])))
+        if f in ("gemv", "symv") and draw(st.booleans()):
+            # the operation on a submatrix: rows oi.., columns oj.. of a larger A (m, n, offsetA as in BLAS, ldA = A.size[0])
+            c.update(sub=[draw(st.integers(0, 3)), draw(st.integers(0, 3)), draw(st.integers(0, 1)), draw(st.integers(0, 1))])
+        if f == "gemv" and draw(st.booleans()):
+            # x and y as parts of longer vectors (offsetx, offsety, elements after the addressed part)
+            c.update(off=[draw(st.integers(0, 2)), draw(st.integers(0, 2)), draw(st.integers(0, 2)), draw(st.integers(0, 2))])
     return c
 
 
@@ -325,18 +336,32 @@ def blas_case(c, labels):
         res, resd = Y, Yd
         partial = bool(kw)
     elif f == "gemv":
-        A = mkA(m, n)
+        oi, oj, er, ec = c.get("sub", [0, 0, 0, 0])
+        A = mkA(m + oi + er, n + oj + ec)
+        skw = dict(m=m, n=n, offsetA=oi + oj * A.size[0]) if "sub" in c else {}
+        if skw:
+            what += " submatrix %r of a %dx%d A" % (skw, A.size[0], A.size[1])
         tA = c["transA"]
         xl, yl = (n, m) if tA == "N" else (m, n)
         ix, iy = c.get("incx", 1), c.get("incy", 1)
         what += " incx=%d incy=%d" % (ix, iy)
-        x, y = rnd_dn(rng, tc, 1 + (xl - 1) * abs(ix) if xl else 0, 1), rnd_dn(rng, tc, 1 + (yl - 1) * abs(iy) if yl else 0, 1)
+        ox, oy, tx, ty = c.get("off", [0, 0, 0, 0])
+        x, y = rnd_dn(rng, tc, ox + tx + (1 + (xl - 1) * abs(ix) if xl else 0), 1), rnd_dn(rng, tc, oy + ty + (1 + (yl - 1) * abs(iy) if yl else 0), 1)
+        if "off" in c:
+            skw = dict(skw, offsetx=ox, offsety=oy)
+            what += " offsetx=%d offsety=%d (+%d, +%d elements behind)" % (ox, oy, tx, ty)
         yd = matrix(y)
         try:
-            base.gemv(A, x, y, trans=tA, alpha=al, beta=be, incx=ix, incy=iy)
+            base.gemv(A, x, y, trans=tA, alpha=al, beta=be, incx=ix, incy=iy, **skw)
         except EXC as e:
             raise Violation("%s raised %s: %s" % (what, type(e).__name__, e))
-        base.gemv(matrix(A), x, yd, trans=tA, alpha=al, beta=be, incx=ix, incy=iy)
+        if "sub" in c and A.size[0] == 0:
+            yd = y          # a matrix without rows has no leading dimension to address a submatrix with: not judged
+        elif skw:
+            Asub = matrix(matrix(A)[oi:oi + m, oj:oj + n], (m, n))
+            base.gemv(Asub, x, yd, trans=tA, alpha=al, beta=be, incx=ix, incy=iy, offsetx=ox, offsety=oy)
+        else:
+            base.gemv(matrix(A), x, yd, trans=tA, alpha=al, beta=be, incx=ix, incy=iy)
         res, resd, partial, pat = y, yd, False, None
     elif f == "gemm":
         tA, tB = c["transA"], c["transB"]
@@ -381,7 +406,11 @@ def blas_case(c, labels):
         labels.append("blas:syrk")
         return
     else:  # symv
-        A = mkA(n, n)
+        oi, oj, er, ec = c.get("sub", [0, 0, 0, 0])
+        A = mkA(n + oi + er, n + oj + ec)
+        skw = dict(n=n, offsetA=oi + oj * A.size[0]) if "sub" in c else {}
+        if skw:
+            what += " submatrix %r of a %dx%d A" % (skw, A.size[0], A.size[1])
         ix, iy = c.get("incx", 1), c.get("incy", 1)
         what += " incx=%d incy=%d" % (ix, iy)
         xs, ys = rnd_dn(rng, "d", n, 1), rnd_dn(rng, "d", n, 1)
@@ -392,7 +421,7 @@ def blas_case(c, labels):
             yb[(i if iy > 0 else n - 1 - i) * abs(iy)] = ys[i]
         yb0 = matrix(yb)
         try:
-            base.symv(A, xb, yb, uplo=c["uplo"], alpha=al, beta=be, incx=ix, incy=iy)
+            base.symv(A, xb, yb, uplo=c["uplo"], alpha=al, beta=be, incx=ix, incy=iy, **skw)
         except EXC as e:
             raise Violation("%s raised %s: %s" % (what, type(e).__name__, e))
         x, y, yd = xs, matrix([yb[(i if iy > 0 else n - 1 - i) * abs(iy)] for i in range(n)], (n, 1), "d"), ys
@@ -400,7 +429,7 @@ def blas_case(c, labels):
             if k_ % abs(iy) != 0 and yb[k_] != yb0[k_]:
                 raise Violation("%s: element %d of y between the addressed elements changed" % (what, k_))
         # reference: symmetric matrix defined by the uplo triangle of A
-        Ad = matrix(A)
+        Ad = matrix(matrix(A)[oi:oi + n, oj:oj + n], (n, n))
         S = matrix(0.0, (n, n))
         for j in range(n):
             for i in range(n):
